@@ -829,6 +829,16 @@ pub fn c12(r: &mut Rng, sz: &Sizes, out: &mut Vec<String>) {
     for n in [10, 100, 1000] {
         out.push(format!("allocs\tsources\t{n}"));
     }
+    // WIDTH per arm: two wide objects (disjoint / equal / half-shared names), many one-member sources with distinct
+    // names, a OneOf of n variants, two wide tuples, a wide subset query
+    for fam in ["merge_wide_disjoint", "merge_wide_same", "merge_wide_half", "sources_distinct", "merge_wide_tuple", "subset_wide", "subset_wide_oneof"] {
+        for n in [10usize, 40, 160, 640] {
+            out.push(format!("allocs\t{fam}\t{n}"));
+        }
+    }
+    for n in [5usize, 10, 20, 40, 80] {
+        out.push(format!("allocs\tsources_variants\t{n}"));
+    }
 }
 
 /// One-hole contexts (`@` is the hole) covering every position a nested value can take: first, last and
@@ -1357,6 +1367,32 @@ fn source_sets(r: &mut Rng, n: usize) -> Vec<Vec<String>> {
         vec!["{\"entry\":[1,[\"a\",{\"k\":true}]]}".to_string()],
         vec!["{\"a\":[[{\"k\":1}],[{\"k\":2}]],\"t\":[1,[[{\"m\":\"x\"}]]]}".to_string()],
     ];
+    // numbers of every lexical kind under member names of every flavour (an `id` is still just a Number), in
+    // arrays and tuples too: the generated field type has to read all of them
+    let nums = ["0", "-0", "-7", "2.5", "1e3", "2E-2", "-1.5e-3", "18446744073709551615", "1234567890123456789012345", "0.1", "9007199254740993"];
+    for key in ["id", "user_id", "n", "count", "price"] {
+        let docs: Vec<String> = nums.iter().map(|v| format!("{{\"{key}\":{v},\"name\":\"x\"}}")).collect();
+        out.push(docs.clone());
+        out.push(vec![format!("[{}]", docs.join(","))]);
+    }
+    out.push(nums.iter().map(|v| format!("[{v},\"u\"]")).collect());
+    out.push(vec![format!("[{}]", nums.join(","))]);
+    // objects nested 40 deep, an object under 40 arrays (the comparison hook passes shapes as JSON, which serde_json
+    // reads to 128 levels: about 42 levels of shape), and hundreds of repeats of one sub-struct followed by a new one
+    for depth in [40usize] {
+        let mut o = String::from("1");
+        let mut a = String::from("{\"leaf\":true}");
+        for _ in 0..depth {
+            o = format!("{{\"a\":{o}}}");
+            a = format!("[{a}]");
+        }
+        out.push(vec![o]);
+        out.push(vec![a]);
+    }
+    for reps in [130usize, 150, 260] {
+        let ms: Vec<String> = (0..reps).map(|i| format!("\"u{i:03}\":{{\"score\":{i}}}")).collect();
+        out.push(vec![format!("{{{},\"zsummary\":{{\"total\":1,\"label\":\"x\"}}}}", ms.join(","))]);
+    }
     // sibling objects of one layout where a member (of every kind) is optional in one sibling only, in
     // both visiting orders: type names are derived from structure, so "same layout, different
     // optionality" is where two definitions can be confused
@@ -1421,9 +1457,10 @@ fn source_sets(r: &mut Rng, n: usize) -> Vec<Vec<String>> {
             })
             .collect();
         out.push(vec![format!("{{{}}}", subs.join(","))]);
-        for n in [11usize, 12] {
+        for n in [11usize, 12, 13, 14, 25] {
             let slots: Vec<&str> = (0..n).map(|i| ["1", "\"a\"", "true"][i % 3]).collect();
             out.push(vec![format!("{{\"t\":[{}]}}", slots.join(","))]);
+            out.push(vec![format!("[{}]", slots.join(","))]);
         }
         out.push(vec!["{\"v\":1}", "{\"v\":\"s\"}", "{\"v\":true}", "{\"v\":[1]}", "{\"v\":{\"a\":1}}", "{\"v\":[1,\"x\"]}", "{\"v\":null}"].iter().map(|x| x.to_string()).collect());
     }
